@@ -235,6 +235,11 @@ def check_program(prog, res, compress, fails, want=None):
             if val is None or not rd_ok or val[1] != want_v:
                 chk = 'li' if isinstance(rec['value'], int) else 'value'
                 bad(chk, rec, 'li leaves %r, documented rd=%d value=0x%x (emitted %r)' % (val, rec['rd'], want_v, base))
+            elif compress and rec.get('literal'):
+                # the expansion of a literal li consists of literal-operand instructions: each eligible one is 16 bits wide
+                for sz, bi in zip(sizes, base):
+                    if sz == 4 and eligible(bi):
+                        bad('eligible', rec, 'the expansion contains %r, the expansion of a legal RVC instruction, emitted in 32 bits' % (bi,))
             continue
         if k == 'expand':
             exp = [(m, tuple(rv32.canon(PY, r, v) for r, v in zip(rv32.roles(m), ops))) for m, ops in rec['expect']]
